@@ -29,6 +29,18 @@ CHECKS["C01"] = (
     "items with cond(J) > 1e8 or saturated outputs are counted and skipped as not decidable in float64; UMNN to 1e-6.",
     "DESIGN.md section 3 C01")
 
+CHECKS["C02"] = (
+    "round-trip monitor on the real forward/inverse (float64 deciding, float32 pass) with Jacobian-singular-value-scaled "
+    "tolerances, log-det antisymmetry evaluated at inverse(y); spline functions driven directly in the inverse direction on "
+    "y-knots, their ulp neighbours and box end-points",
+    "inverse(forward(x)) ~ x, forward(inverse(y)) ~ y, logabsdet_inv(y) = -logabsdet_fwd(inverse(y)) and finiteness are checked per "
+    "batch item for every invertible family x configuration x six parameter policies (incl. exactly zero and strongly non-uniform) "
+    "x structured inputs, with tolerance 1e-7 in float64 scaled by the item Jacobian's extreme singular values only when the "
+    "unscaled test fails. Sampled, not exhaustive.",
+    "Declared approximation constants honoured (Sigmoid eps, UMNN bisection 1e-4, cubic threshold); end-point overshoots below 1% of "
+    "the tolerance are clamped before the second call; saturated items (|logabsdet| > 20 per item) are counted and skipped.",
+    "DESIGN.md section 3 C02")
+
 PENDING_REASON = "check not built yet in this session (planned, see DESIGN.md section 3); not claimed until it exists and is calibrated"
 
 
